@@ -34,6 +34,7 @@ from typing import (
     Dict,
     List,
     Optional,
+    Set,
     Union,
     overload,
 )
@@ -135,6 +136,10 @@ class Interpreter(BaseInterpreter[TContext, TEvent]):
         #: a macrostep completes without having done so. Bounds a runaway
         #: `raise` without ever throttling external `send()` traffic.
         self._raise_depth: int = 0
+        #: Identities of queued events this interpreter raised at itself while
+        #: processing (the members of a potential runaway chain). When the
+        #: chain breaker trips, exactly these are purged from the queue.
+        self._self_raised: Set[int] = set()
         #: True while `_run_event_loop` is inside `_process_event...`.
         self._processing: bool = False
 
@@ -425,6 +430,7 @@ class Interpreter(BaseInterpreter[TContext, TEvent]):
             while self.status == "running":
                 # 📬 Wait indefinitely for the next event from the queue.
                 event = await self._event_queue.get()
+                self._self_raised.discard(id(event))
 
                 if self._raise_depth > limit:
                     logger.error(
@@ -437,6 +443,23 @@ class Interpreter(BaseInterpreter[TContext, TEvent]):
                     )
                     self._raise_depth = 0
                     self._event_queue.task_done()
+                    # 🧹 Purge the REST of the runaway chain too. Dropping only
+                    #    this one event is enough for a chain that raises once
+                    #    per step, but with a fan-out of two or more (an entry
+                    #    action and a transition action both raising, or an
+                    #    `always` loop re-entering a raising state) the other
+                    #    self-raised events stay queued and keep feeding: the
+                    #    queue grows without bound and the loop never yields.
+                    #    Externally sent events are kept, in order.
+                    kept = []
+                    while not self._event_queue.empty():
+                        queued = self._event_queue.get_nowait()
+                        self._event_queue.task_done()
+                        if id(queued) not in self._self_raised:
+                            kept.append(queued)
+                    self._self_raised.clear()
+                    for queued in kept:
+                        self._event_queue.put_nowait(queued)
                     continue
 
                 logger.debug(
@@ -471,8 +494,15 @@ class Interpreter(BaseInterpreter[TContext, TEvent]):
                     self._processing = True
                     depth_before = self._raise_depth
                     await self._process_event_and_transient_transitions(event)
-                    # ✅ A macrostep that raised nothing ends the chain.
-                    if self._raise_depth == depth_before:
+                    # ✅ The chain ends once nothing this machine raised at
+                    #    itself is left in the queue. (A macrostep that merely
+                    #    raised nothing does not end it: other members of a
+                    #    branching chain may still be queued, and resetting
+                    #    the count there let such a chain run forever.)
+                    if (
+                        self._raise_depth == depth_before
+                        and not self._self_raised
+                    ):
                         self._raise_depth = 0
                 except asyncio.CancelledError:
                     raise
@@ -804,6 +834,7 @@ class Interpreter(BaseInterpreter[TContext, TEvent]):
             #    calls never pass through here.
             if actor is self and self._processing:
                 self._raise_depth += 1
+                self._self_raised.add(id(target_event))
             await self._send_to_actor(actor, target_event)
             return
 
